@@ -17,7 +17,7 @@ from . import oracles as O
 
 def make_truth(rng, n_models, n_ap, n_wav, names=None, wav_range=(0.05, 2000.0), f32=False, params=None):
     wav = np.sort(gen.loguniform(rng, wav_range[0], wav_range[1], n_wav))
-    while np.any(np.diff(wav) <= 1e-4 * wav[:-1]):
+    while np.any(np.diff(wav) <= 1e-4 * wav[:-1]) or wav[-1] < 1.3 * wav[0]:          # (distinct points; a grid spanning at least 30%)
         wav = np.sort(gen.loguniform(rng, wav_range[0], wav_range[1], n_wav))
     names = names or gen.model_names(rng, n_models)
     aps = gen.aperture_table(rng, n_ap) if n_ap > 1 else None
@@ -41,7 +41,13 @@ def make_filter_arrays(rng, truth_wav, kind=None):
     """(wav_um ascending, response>=0, central) relative to an SED wavelength grid"""
     lo, hi = truth_wav[0], truth_wav[-1]
     kind = kind or str(rng.choice(['inside', 'inside', 'partial-lo', 'partial-hi', 'contains', 'narrow']))
-    if kind == 'inside':
+    if hi <= lo * 1.12:
+        # an SED grid spanning less than 12% in wavelength (two or three close points): the ends of the filter are laid out as
+        # fractions of the span instead of margins of a few percent
+        span = hi - lo
+        a, b = {'inside': (lo + 0.2 * span, lo + 0.8 * span), 'partial-lo': (lo - 0.5 * span, lo + 0.6 * span),
+                'partial-hi': (lo + 0.4 * span, hi + 0.5 * span), 'contains': (lo - 0.5 * span, hi + 0.5 * span)}.get(kind, (lo + 0.3 * span, lo + 0.5 * span))
+    elif kind == 'inside':
         a, b = np.sort(gen.loguniform(rng, lo * 1.01, hi * 0.99, 2))
     elif kind == 'partial-lo':
         a, b = lo * rng.uniform(0.2, 0.9), float(gen.loguniform(rng, lo * 1.05, hi))
